@@ -374,7 +374,7 @@ class MetaSpec_time_signature(MetaSpec):
 
     def encode(self, message):
         return [message.numerator,
-                message.denominator.bit_length() - 1,
+                int(message.denominator).bit_length() - 1,
                 message.clocks_per_click,
                 message.notated_32nd_notes_per_beat,
                 ]
